@@ -1,1 +1,97 @@
 import TinsModel.Wire.App.Theorems
+open Tins.Wire.App
+-- C01
+#print axioms arp_parse_safe
+#print axioms vxlan_parse_safe
+#print axioms vxlan_parse_consumes
+#print axioms stp_parse_safe
+#print axioms bootp_parse_safe
+#print axioms rtp_parse_safe
+#print axioms dhcp_parseOpts_safe
+#print axioms dhcp_parse_safe
+#print axioms dhcpv6_parseOpts_safe
+#print axioms dhcpv6_parse_safe
+-- C02
+#print axioms arp_writesOnly
+#print axioms vxlan_writesOnly
+#print axioms stp_writesOnly
+#print axioms bootp_writesOnly
+#print axioms rtp_headerBytes_length
+#print axioms rtp_writesOnlyExact
+#print axioms rtp_writesOnly_nopad
+#print axioms serializeInto_ok_exact
+#print axioms dhcp_optsBytes_length
+#print axioms dhcp_writesOnly
+#print axioms dhcpv6_optsBytes_length
+#print axioms dhcpv6_writesOnly
+-- invariants
+#print axioms arp_parse_inv
+#print axioms vxlan_parse_inv
+#print axioms stp_parse_inv
+#print axioms bootp_parse_inv
+#print axioms rtp_parse_inv
+#print axioms dhcp_parse_inv
+#print axioms dhcp_addOption_inv
+#print axioms dhcp_removeOption_inv
+-- C03
+#print axioms arp_reparse
+#print axioms arp_write_reparse
+#print axioms vxlan_reparse
+#print axioms stp_reparse
+#print axioms bootp_reparse
+-- C04
+#print axioms findOpt_append
+#print axioms findOpt_erase_other
+#print axioms classData_encClassData
+#print axioms decUserClass_enc
+#print axioms decVendorClass_enc
+#print axioms decU8_enc
+#print axioms decU16_enc
+#print axioms decIp6_enc
+#print axioms decStatus_enc
+#print axioms decDuid_enc
+#print axioms decVendorInfo_enc
+#print axioms decIaTa_enc
+#print axioms dhcp_type_roundtrip
+#print axioms dhcp_u32_roundtrip
+#print axioms dhcp_ip_roundtrip
+#print axioms dhcp_str_roundtrip
+#print axioms dhcp_first_match_wins
+-- C03 (TLV)
+#print axioms dhcpv6_parseOpts_optsBytes
+#print axioms dhcpv6_parseOpts_canon
+#print axioms dhcpv6_reparse_plain
+#print axioms dhcpv6_write_reparse_plain
+#print axioms dhcp_parseOpts_optsBytes
+#print axioms dhcp_parseOpts_canon
+#print axioms dhcp_reparse
+#print axioms dhcp_write_reparse
+#print axioms dhcpv6_parseOpts_wireSum
+#print axioms dhcpv6_addOption_inv
+#print axioms dhcpv6_removeOption_inv
+-- API histories
+#print axioms arp_apply_inv
+#print axioms arp_history_inv
+#print axioms arp_create_inv
+#print axioms arp_opcode_set_get
+#print axioms arp_sender_ip_set_get
+#print axioms stp_apply_inv
+#print axioms vxlan_apply_inv
+#print axioms bootp_setHeader_length
+-- C03 (RTP)
+#print axioms readWords_wordsBytes
+#print axioms rtp_reparse
+#print axioms beNat_lt
+#print axioms rtp_parse_canon
+#print axioms rtp_apply_inv
+#print axioms rtp_create_inv
+#print axioms rtp_history_inv
+-- known finding KF-WApp-6 (DHCP option payload > 255 bytes)
+#print axioms dhcp_tlv_roundtrip_all_fails
+#print axioms dhcp_tlv_roundtrip_partial
+#print axioms dhcp_apply_inv
+#print axioms dhcpv6_apply_inv
+#print axioms bootp_apply_inv
+#print axioms dhcpv6_reparse_relay
+-- the generic `WritesOnly` is too strong for a trailer behind the payload: refuted on a witness (see TheoremsRtpApi)
+#print axioms rtp_writesOnly_all_fails
